@@ -8,12 +8,14 @@ import Driver.Credit
 import Driver.RecvCredit
 import Driver.Frame
 import Driver.Codec
+import Driver.Reasm
 
 structure DState where
   sess : Amqp.Session.St := Amqp.Session.init 0 0 0
   credit : Amqp.Credit.SSt := { dc := 0, lc := 0, initDc := 0, drain := false }
   recv : Amqp.RecvCredit.RSt := Amqp.RecvCredit.attached 0 .manual
   frame : Nat × Amqp.Frame.DecSt := (512, Amqp.Frame.decInit)
+  reasm : Option Amqp.Reasm.Inc := none
 
 def handle (st : DState) (line : String) : DState × String :=
   match Driver.words line with
@@ -34,6 +36,10 @@ def handle (st : DState) (line : String) : DState × String :=
     | some (s, out) => ({ st with frame := s }, out)
     | none => (st, "bad-op")
   | "V" :: ws => (st, (Driver.Codec.step ws).getD "bad-op")
+  | "M" :: ws =>
+    match Driver.Reasm.step st.reasm ws with
+    | some (s, out) => ({ st with reasm := s }, out)
+    | none => (st, "bad-op")
   | "W" :: ws => (st, (Driver.Credit.wait ws).getD "bad-op")
   | _ => (st, "bad-op")
 
